@@ -18,9 +18,9 @@ CLAUSES = {
 MANIFEST = {
     "text": "TLC model-checks tla/Reject.tla (an entry point accepts a specification only if it is valid; 512 specifications x 20 entry points "
             "x 2 models) and writes the table of invalid rows; every row is executed on the real code with random valid remaining arguments "
-            "and validated by TLC against the specification's validity predicate.",
+            "and validated by TLC against the specification's validity predicate. tlapm proves RejectsInvalid for any sequence of edits and calls.",
     "note": "Remaining arguments sampled. Trusted: TLC, Java overrides, recorder.",
-    "technique": "TLA+ spec + TLC (exhaustive table, exported) + TLC validation of recorded rejections",
+    "technique": "TLA+ spec + TLC (exhaustive table, exported) + TLC validation of recorded rejections + TLAPS proof (tlapm)",
 }
 
 
